@@ -219,6 +219,10 @@ func runC06(c *Ctx) {
 func runC06Poll(c *Ctx) {
 	rounds := c.Pick(12, 120)
 	polls := c.Pick(40_000, 400_000)
+	if c.Batch.Yield {
+		// (each call passes several yield points in the perturbed copy: a tenth of the samples takes as long)
+		polls /= 10
+	}
 	procs := c.Arg("procs", "?")
 	for idx := 0; idx < rounds; idx++ {
 		if !c.Want("poll", idx) {
